@@ -73,3 +73,92 @@ Theorem nodoccss_strip :
 Proof. exact Prune.nodoccss_strip. Qed.
 Print Assumptions nodoccss_strip.
 
+
+(* ---------- the property as stated (Proofs/PruneNoSheet.v): the document rendered under a sheet that only hides = the document with the hidden elements deleted rendered WITHOUT any style data (both routes, every width); the practically useful form keeps the non-hiding rules (unhide sd) on the deleted side ---------- *)
+From H2T Require Import Base Tagged Wrap Sub Css Dom Render Api CssParse Proofs.CssTotal Proofs.WrapInv Proofs.RenderWidth Proofs.Conserve Proofs.Footnotes Proofs.AnnBalance Proofs.RenderConserve Proofs.OptionRel Proofs.Compose Proofs.RenderTotal Proofs.FragStream Proofs.SimRel Proofs.Prune Proofs.PruneNoSheet.
+Theorem c18_hidden_as_deleted :
+  forall (inline_styles : list (text * text) -> res (list styledecl))
+         (doc_rules : list node -> res (list ruleset)) (c : config) (doc : list node) 
+         (sd : styledata) (width : N),
+       effective_sd doc_rules c doc = Ok sd ->
+       sheet_no_nth sd = true ->
+       sheet_only_hides sd = true ->
+       doc_only_hides (c_use_doc_css c) inline_styles doc = true ->
+       let doc' := prune_doc sd (c_use_doc_css c) inline_styles doc in
+       lines_from_read inline_styles doc_rules c doc width =
+       lines_from_read inline_styles doc_rules (no_css c) doc' width /\
+       string_from_read inline_styles doc_rules c doc width =
+       string_from_read inline_styles doc_rules (no_css c) doc' width.
+Proof. exact PruneNoSheet.c18_hidden_as_deleted. Qed.
+Print Assumptions c18_hidden_as_deleted.
+
+Theorem c18_hidden_as_deleted_base :
+  forall (inline_styles : list (text * text) -> res (list styledecl))
+         (doc_rules : list node -> res (list ruleset)) (c : config) (doc : list node) 
+         (sd : styledata) (width : N),
+       effective_sd doc_rules c doc = Ok sd ->
+       sheet_no_nth sd = true ->
+       sheet_none_only sd = true ->
+       doc_only_hides (c_use_doc_css c) inline_styles doc = true ->
+       let doc' := prune_doc sd (c_use_doc_css c) inline_styles doc in
+       let c0 := with_css c (unhide sd) false in
+       lines_from_read inline_styles doc_rules c doc width =
+       lines_from_read inline_styles doc_rules c0 doc' width /\
+       string_from_read inline_styles doc_rules c doc width =
+       string_from_read inline_styles doc_rules c0 doc' width.
+Proof. exact PruneNoSheet.c18_hidden_as_deleted_base. Qed.
+Print Assumptions c18_hidden_as_deleted_base.
+
+Theorem c18_hidden_as_deleted_inline :
+  forall (inline_styles : list (text * text) -> res (list styledecl))
+         (doc_rules : list node -> res (list ruleset)) (c : config) (doc : list node) 
+         (sd sd' : styledata) (width : N),
+       effective_sd doc_rules c doc = Ok sd ->
+       sheet_no_nth sd = true ->
+       sheet_none_only sd = true ->
+       doc_none_only (c_use_doc_css c) inline_styles doc = true ->
+       let doc' := prune_doc sd (c_use_doc_css c) inline_styles doc in
+       let c0 := with_css c sd' (c_use_doc_css c) in
+       effective_sd doc_rules c0 doc' = Ok (unhide sd) ->
+       lines_from_read inline_styles doc_rules c doc width =
+       lines_from_read inline_styles doc_rules c0 doc' width /\
+       string_from_read inline_styles doc_rules c doc width =
+       string_from_read inline_styles doc_rules c0 doc' width.
+Proof. exact PruneNoSheet.c18_hidden_as_deleted_inline. Qed.
+Print Assumptions c18_hidden_as_deleted_inline.
+
+Theorem computed_unhide :
+  forall (sd : styledata) (me : list anc) (l : list styledecl),
+       sheet_none_only sd = true ->
+       forallb not_shown l = true ->
+       dval (computed_style sd me l) <> Some true ->
+       csim (computed_style sd me l) (computed_style (unhide sd) me l) /\
+       dval (computed_style (unhide sd) me l) <> Some true.
+Proof. exact PruneNoSheet.computed_unhide. Qed.
+Print Assumptions computed_unhide.
+
+Theorem render_tree_nrm :
+  forall (d : deco) (mw : N) (o : ropts) (width : N) (t : rnode),
+       render_tree d mw o width (nrm t) = render_tree d mw o width t.
+Proof. exact PruneNoSheet.render_tree_nrm. Qed.
+Print Assumptions render_tree_nrm.
+
+Theorem dom_unhide :
+  forall (sd sd0 : styledata) (udc udc0 : bool) (inl inl0 : list (text * text) -> res (list styledecl)),
+       sheet_no_nth sd = true ->
+       forall fA : list (text * text) -> bool,
+       (forall (attrs : list (text * text)) (me : list anc),
+        fA attrs = true ->
+        hidden sd udc inl me attrs = false ->
+        (if udc0 then inl0 attrs else Ok []) = (if udc then inl attrs else Ok []) /\
+        (forall l : list styledecl,
+         (if udc then inl attrs else Ok []) = Ok l ->
+         csim (computed_style sd me l) (computed_style sd0 me l) /\
+         dval (computed_style sd0 me l) <> Some true)) ->
+       forall doc : list node,
+       forallb (attrs_all fA) doc = true ->
+       rmap nrm (dom_to_render_tree sd udc inl doc) =
+       rmap nrm (dom_to_render_tree sd0 udc0 inl0 (prune_doc sd udc inl doc)).
+Proof. exact PruneNoSheet.dom_unhide. Qed.
+Print Assumptions dom_unhide.
+
